@@ -221,7 +221,7 @@ class Project:
             if isinstance(text, bytes):
                 p.write_bytes(text)
             else:
-                p.write_text(text)
+                p.write_text(text, encoding="utf-8")
 
     def path(self, rel: str = "") -> str:
         return str(self.root / rel) if rel else str(self.root)
